@@ -58,6 +58,20 @@ class Convert(Contract):
                             modes = [MODES[k % len(MODES)], MODES[(k + 3) % len(MODES)]]
                         for rule, mode in modes:
                             yield dict(src=list(src), dst=list(dst), route=route, shape=shape, rule=rule, mode=mode)
+        # sources that were DERIVED from another object first (an element read by indexing, a flattened copy): their cached
+        # attributes (real / imag / shape-dependent state) may be stale, the codes are what counts
+        j = 0
+        for src in fm:
+            for dst in fm:
+                if dst[2] == src[2] or abs(dst[2] - src[2]) >= 40:
+                    continue
+                for route in ('ctor_like', 'set_val', 'setitem', 'call', 'equal', 'ctor_from_fxp', 'like_method'):
+                    j += 1
+                    if j % (5 if tier == 'quick' else 2):
+                        continue
+                    via, shape = (('getitem', []), ('flatten', [2]))[(j // 5) % 2 if route != 'setitem' else 0]
+                    rule, mode = MODES[j % len(MODES)]
+                    yield dict(src=list(src), dst=list(dst), route=route, shape=shape, rule=rule, mode=mode, src_via=via)
 
     def inputs(self, cfg, D):
         s, w, f = cfg['src']
@@ -67,6 +81,9 @@ class Convert(Contract):
         if df - f > 0:
             for c in cs:
                 D.assume(And(scale2(M(c), df - f) < 2**62, scale2(M(c), df - f) > -2**62))
+        if cfg.get('src_via') == 'getitem':
+            # an element object starts with cleared flags (Fxp(like=base) resets the status record): the flags of the base do not travel
+            return {'c': cs, 'old': codes_in(D, 'o', 3, ds, dw), 'isrc': False, 'st_dst': sym_status(D, 'dst'), 'osrc': False, 'usrc': False}
         return {'c': cs, 'old': codes_in(D, 'o', 3, ds, dw), 'isrc': D.bool('inacc_src'), 'st_dst': sym_status(D, 'dst'),
                 'osrc': D.bool('ovf_src'), 'usrc': D.bool('unf_src')}
 
@@ -80,6 +97,14 @@ class Convert(Contract):
         in_place = route in ('resize', 'resize_dtype', 'resize_nint')
         src = make_fxp(P, s, w, f, codes=inp['c'], shape=shape, cfg=gov if in_place else other,
                        status={'inaccuracy': inp['isrc'], 'overflow': inp['osrc'], 'underflow': inp['usrc']}, vdtype=float if f > 0 else int)
+        if cfg.get('src_via') == 'getitem':
+            base = make_fxp(P, s, w, f, codes=[inp['c'][0], inp['c'][0]], shape=(2,), cfg=gov if in_place else other,
+                            status={'inaccuracy': inp['isrc'], 'overflow': inp['osrc'], 'underflow': inp['usrc']}, vdtype=float if f > 0 else int)
+            src = base[1]
+        elif cfg.get('src_via') == 'flatten':
+            base = make_fxp(P, s, w, f, codes=inp['c'], shape=(1, 2), cfg=gov if in_place else other,
+                            status={'inaccuracy': inp['isrc'], 'overflow': inp['osrc'], 'underflow': inp['usrc']}, vdtype=float if f > 0 else int)
+            src = base.flatten()
         bsrc = dict(src.__dict__); v0 = list(elems(src.val)); st0 = dict(src.status); c0 = dict(src.config.__dict__)
         dst = None
         if route == 'ctor_like_kw':
